@@ -32,6 +32,7 @@ def prop(pid, **kw):
 prop(
     "C01",
     module="Aquatic.Props.C01",
+    extra_modules=["Aquatic.Props.Store"],
     technique="Lean 4 refinement proof (induction over histories) + differential correspondence against the real TorrentMaps",
     runs=[dict(harness="udpstore", driver="store",
                quick=dict(cases=600, maxops=60), thorough=dict(cases=40000, maxops=160))],
